@@ -158,6 +158,17 @@ func checkMsg(c MsgCase, cv *cov) (v *evid.Violation) {
 					return
 				}
 			}
+			// the same bytes through the message unmarshaller (a third way to read a header)
+			var sinkB base.Base
+			_, _, err3 := thrift.UnmarshalFastMsg(append([]byte(nil), in...), &sinkB)
+			if err3 == nil {
+				v = evid.Failf("UnmarshalFastMsg accepted %s (cut %d)", hx(in), c.Cut)
+				return
+			}
+			if expectBadVersion && !isBadVersion(err3) {
+				v = evid.Failf("UnmarshalFastMsg on %d bytes with first word %#x: error %v (%T) is not a protocol exception with type id BAD_VERSION", len(in), *c.Word, err3, err3)
+				return
+			}
 		}
 		r.Recycle()
 		if expectOK {
@@ -229,6 +240,8 @@ func checkMsg(c MsgCase, cv *cov) (v *evid.Violation) {
 					v = evid.Failf("UnmarshalFastMsg of an EXCEPTION message (method of %d bytes; body: %s) returned err=%v (%T), want *ApplicationException", len(name), bd.about, err, err)
 					return
 				}
+				// printing the exception (any number of times) must not change what it carries
+				_, _ = ae.Error(), fmt.Sprintf("%v %s", ae, ae.String())
 				if ae.TypeID() != bd.t || ae.Msg() != bd.m || m != name || seq != c.Seq {
 					v = evid.Failf("UnmarshalFastMsg of an EXCEPTION message (body: %s), read after an EXCEPTION message that was rejected, returned (type %d, text %q, method eq=%v, seq %d); the body holds (type %d, text %q)", bd.about, ae.TypeID(), ae.Msg(), m == name, seq, bd.t, bd.m)
 					return
